@@ -267,7 +267,8 @@ func applyIfExistsConfig(t rel.Tuple, dir string, fs afero.Fs, dryRun bool) (err
 		}
 		return errors.Errorf("%s: '%s' field must exist", ifExistsConfig, dirField)
 	case ifExistsIgnore:
-		return nil
+		// nothing is written over the existing target, but the entry must still be a valid description
+		return checkDirXorFileField(t)
 	case ifExistsFail:
 		return errors.Errorf("%s: '%s' exists", ifExistsConfig, dir)
 	}
